@@ -10,6 +10,7 @@
 #include "Archive/ClmFile.h"
 #include "Archive/VolFile.h"
 #include <memory>
+#include "Stream/SliceReader.h"
 #include <stdexcept>
 #include <unordered_set>
 
@@ -219,7 +220,37 @@ struct ArchiveDamage : Family {
 				r.bytes.resize(static_cast<size_t>(len));
 				Rng rr(op.u("rseed", 1));
 				size_t off = 0;
-				while (off < r.bytes.size()) { size_t k = 1 + static_cast<size_t>(rr.below(rr.chance(1, 3) ? 5 : 3000)); if (k > r.bytes.size() - off) k = r.bytes.size() - off; s->Read(r.bytes.data() + off, k); off += k; }
+				size_t handOver = (rr.chance(1, 3) && r.bytes.size() > 1) ? 1 + static_cast<size_t>(rr.below(r.bytes.size() - 1)) : SIZE_MAX;
+				size_t readByOriginal = 0; // bytes [0, readByOriginal) were delivered by the original before a copy took over
+				std::unique_ptr<Stream::BidirectionalReader> viaCopy;
+				Stream::BidirectionalReader* cur = s.get();
+				while (off < r.bytes.size()) {
+					if (off >= handOver) {
+						handOver = SIZE_MAX;
+						if (auto* fs = dynamic_cast<Stream::FileSliceReader*>(cur)) {
+							// a member stream is a file slice: a sub-slice whose start + length wraps around 2^64 is refused, and a copy taken in
+							// mid-stream delivers the member's bytes from the position it reports
+							bool refused = false;
+							try { auto bad = fs->Slice(UINT64_MAX - rr.below(8), 1 + rr.below(40)); (void)bad; } catch (const std::exception&) { refused = true; }
+							if (!refused) throw std::logic_error("SIM: a sub-slice of a member stream whose start + length wraps around 2^64 was created");
+							viaCopy = std::make_unique<Stream::FileSliceReader>(*fs);
+							uint64_t cpos = viaCopy->Position();
+							if (cpos > r.bytes.size()) throw std::logic_error("SIM: copy of a member stream reports a position beyond its length");
+							cur = viaCopy.get();
+							readByOriginal = off;
+							off = static_cast<size_t>(cpos);
+							continue;
+						}
+					}
+					size_t k = 1 + static_cast<size_t>(rr.below(rr.chance(1, 3) ? 5 : 3000)); if (k > r.bytes.size() - off) k = r.bytes.size() - off;
+					std::vector<uint8_t> piece(k);
+					cur->Read(piece.data(), k);
+					for (size_t q = 0; q < k; ++q) {
+						if (viaCopy && off + q < readByOriginal && piece[q] != r.bytes[off + q]) throw std::logic_error("SIM: a copy of a member stream delivers other bytes than the original did at the same position");
+						r.bytes[off + q] = piece[q];
+					}
+					off += k;
+				}
 				if (len) { s->Seek(len / 2); uint8_t c; s->Peek(&c, 1); if (c != r.bytes[static_cast<size_t>(len / 2)]) throw std::logic_error("SIM: peek after seek disagrees with the bytes read"); }
 				char extra;
 				if (s->ReadPartial(&extra, 1) != 0 && s->Position() > len) throw std::logic_error("SIM: stream delivers bytes beyond its length");
